@@ -1180,6 +1180,22 @@ for _n in ("concatenate", "vstack", "hstack"):
     NP["numpy." + _n] = _stack
 
 
+@reg("numpy.column_stack")
+def np_column_stack(interp, name, args, kw, st, node):
+    # 1-D arrays become columns, then everything is joined along axis 1
+    seq = args[0]
+    if seq.items is None:
+        return fresh_arr(callterm(name, args, kw), None, _L(*args))
+    cols = []
+    for x in seq.items:
+        xv = arrv(x)
+        sx = shape(xv)
+        if sx is not None and len(sx) == 1:
+            xv = reshape_to(interp, xv, [A.int_of_dim(sx[0]), vconst(1)], st, node)
+        cols.append(xv)
+    return _stack(interp, "numpy.hstack", [(interp.mk_tuple if seq.kind == "tuple" else interp.mk_list)(cols)], {}, st, node)
+
+
 @reg("numpy.diag", "numpy.diagflat", "numpy.diagonal")
 def np_diag(interp, name, args, kw, st, node):
     base = name.rsplit(".", 1)[1]
@@ -1200,6 +1216,17 @@ def np_diag(interp, name, args, kw, st, node):
 @reg("numpy.diag_indices_from", "numpy.diag_indices")
 def np_diag_indices(interp, name, args, kw, st, node):
     return V("diagidx", T("diagidx"), labels=frozenset())
+
+
+@reg("numpy.putmask")
+def np_putmask(interp, name, args, kw, st, node):
+    # np.putmask(a, mask, v) is a[mask] = v
+    b = bind(["a", "mask", "values"], args, kw)
+    a_, m_, v_ = arrv(b["a"]), arrv(b["mask"]), b["values"]
+    interp.event("mutate", node, st, how="putmask", target=a_, value=v_, targetsrc="arg0")
+    new = a_.replace(term=T("store", a_.term, m_.term, v_.term), labels=a_.labels | m_.labels | v_.labels, has_const=False, const_=None, items=None)
+    interp.rebind(a_, new, st)
+    return vconst(None)
 
 
 @reg("numpy.put")
@@ -1720,6 +1747,12 @@ def _with_extra_kw(interp, res, extra):
     return wrap(res)
 
 
+EXT_SIGNATURES = {
+    "ConvexHull": ["points"], "interp1d": ["x", "y"], "LinearNDInterpolator": ["points", "values"], "KFold": ["n_splits"],
+    "Ridge": ["alpha"], "KernelRidge": ["alpha"], "RidgeCV": ["alphas"],
+}
+
+
 def ext_construct(interp, qual, args, kw, st, node):
     hook = interp.config.get("call_hook")
     if hook is not None:
@@ -1732,6 +1765,12 @@ def ext_construct(interp, qual, args, kw, st, node):
             return a[0]
 
         return V("func", T("Parallel"), func=("builtin", run, "Parallel"))
+    sig = EXT_SIGNATURES.get(last)
+    if sig and kw:
+        # leading parameters given by keyword are the positional ones (ConvexHull(points=P) is ConvexHull(P))
+        args, kw = list(args), dict(kw)
+        while len(args) < len(sig) and sig[len(args)] in kw:
+            args.append(kw.pop(sig[len(args)]))
     labels = _L(*args, *kw.values())
     interp.event("ext-new", node, st, cls=qual, args=args, kwargs=kw)
     return V("ext", T("new", last, tuple(a.term for a in args), kwterms(kw)), extra={"cls": qual, "args": list(args), "kwargs": dict(kw)}, labels=labels, orig=frozenset([FRESH]))
